@@ -63,10 +63,13 @@ Section Sim.
   Variable RT : Phi -> T1 -> S1 -> T2 -> S2 -> Prop.
   Variable Done2 : S2 -> Prop.
   Variable IsRoot : bool -> Phi -> Prop.
+  (* when two primitive visits count as the same for the visitors reached through a hint
+     (equality for the path proofs; coarser for the encoding-independence theorem of C10) *)
+  Variable PR : hint -> prim -> prim -> Prop.
 
   Definition act_rel (phi : Phi) (h : hint) (p1 : action S1 C * S1) (p2 : action S2 C * S2) : Prop :=
     match fst p1, fst p2 with
-    | APrim a, APrim b => a = b /\ R phi (snd p1) (snd p2)
+    | APrim a, APrim b => PR h a b /\ R phi (snd p1) (snd p2)
     | AColor a, AColor b => a = b /\ R phi (snd p1) (snd p2)
     | ASeq sub1, ASeq sub2 =>
       exists phi', R phi' sub1 sub2 /\
@@ -95,7 +98,10 @@ Section Sim.
             sim (tok_rel phi) (p_next_key ops1 root s1) (p_next_key ops2 root s2);
     H_val : forall phi s1 s2, R phi s1 s2 ->
             sim (fun p1 p2 => RT phi (fst p1) (snd p1) (fst p2) (snd p2)) (p_next_value ops1 s1) (p_next_value ops2 s2);
-    H_color : forall n sh c, p_color ops1 n sh c = p_color ops2 n sh c }.
+    H_color : forall n sh c, p_color ops1 n sh c = p_color ops2 n sh c;
+    H_prim : forall sh p1 p2, PR (hint_of sh) p1 p2 -> visit_prim F sh p1 = visit_prim F sh p2;
+    H_variant : forall vs p1 p2, PR HIdent p1 p2 -> visit_variant vs p1 = visit_variant vs p2;
+    H_field : forall (tk : bool) fs p1 p2, PR (if tk then HU16 else HIdent) p1 p2 -> visit_field fs p1 = visit_field fs p2 }.
 
   Hypothesis OS : ops_sim.
 
@@ -301,7 +307,7 @@ Section Sim.
       - eapply sim_bind; [apply (H_disp OS), K|].
         intros [x1 c1] [x2 c2] A. unfold act_rel in A. cbn [fst snd] in A.
         destruct x1, x2; try contradiction; try (right; reflexivity).
-        destruct A as [-> A].
+        destruct A as [EP A]. rewrite (H_field OS token fs _ _ EP).
         destruct (visit_field fs p0); cbn [obind]; try (right; reflexivity); try (right; exact I).
         apply sim_ok. split; [reflexivity|exact A].
       - eapply sim_bind; [apply HR, K|].
@@ -316,7 +322,7 @@ Section Sim.
       intros H. unfold walk_plain. eapply sim_bind; [apply (H_disp OS), H|].
       intros [x1 c1] [x2 c2] A. unfold act_rel in A. cbn [fst snd] in A.
       destruct x1, x2; try contradiction.
-      - destruct A as [-> A].
+      - destruct A as [EP A]. rewrite (H_prim OS sh _ _ EP).
         destruct (visit_prim F sh p0); cbn [obind]; try (right; reflexivity); try (right; exact I).
         apply sim_ok. split; [reflexivity|exact A].
       - destruct A as (phi' & A & EX).
@@ -342,7 +348,7 @@ Section Sim.
     intros H. unfold walk_enum. eapply sim_bind; [apply (H_disp OS), H|].
     intros [x1 c1] [x2 c2] A. unfold act_rel in A. cbn [fst snd] in A.
     destruct x1, x2; try contradiction; try (right; reflexivity).
-    destruct A as [-> A].
+    destruct A as [EP A]. rewrite (H_variant OS vs _ _ EP).
     destruct (visit_variant vs p0); cbn [obind]; try (right; reflexivity); try (right; exact I).
     apply sim_ok. split; [reflexivity|exact A].
   Qed.
